@@ -214,9 +214,40 @@ func runCase(r *vk.Run, c Case) (crashedAt []bool) {
 	}
 	r.Hit("restart-ok")
 	h0, _ := p.n.Store.Height(ctx)
+	// the restarted node, before it does anything: recorded chain height, recorded state and stored blocks agree
+	r.Hit("agree-right-after-restart")
+	if st, err := p.n.Store.GetState(ctx); err == nil && h0 >= c.Initial {
+		if st.LastBlockHeight != h0 {
+			fail("agree-right-after-restart", fmt.Sprintf("right after the restart the recorded chain height is %d and the recorded state is that of height %d", h0, st.LastBlockHeight))
+			return
+		}
+		if ms := p.n.M.GetLastState(); ms.LastBlockHeight != h0 {
+			fail("agree-right-after-restart", fmt.Sprintf("right after the restart the recorded chain height is %d and the node works from the state of height %d", h0, ms.LastBlockHeight))
+			return
+		}
+		for h := c.Initial; h <= h0; h++ {
+			if _, _, err := p.n.Store.GetBlockData(ctx, h); err != nil {
+				fail("agree-right-after-restart", fmt.Sprintf("right after the restart the recorded chain height is %d and block %d cannot be read: %v", h0, h, err))
+				return
+			}
+		}
+	}
 	var stepErrs []string
 	for i := 0; i < 4; i++ {
-		s.push(world.SeqTxs, false)
+		// what the sequencing layer answers right after the recovery varies with the case: a batch, an empty batch,
+		// or (first step only) nothing yet
+		kind := world.SeqTxs
+		ksum := c.Prefix + int(c.Initial)
+		for _, k := range c.K {
+			ksum += k
+		}
+		switch {
+		case i == 0 && ksum%3 == 1:
+			kind = world.SeqEmpty
+		case i == 1 && ksum%3 == 2:
+			kind = world.SeqEmpty
+		}
+		s.push(kind, false)
 		if err := p.n.M.VerifPublishBlock(ctx); err != nil {
 			stepErrs = append(stepErrs, err.Error())
 		}
